@@ -143,7 +143,13 @@ def run(tier, seed):
                 rec.fail(f"switches:{path}:{ud}:{ue}", f"JSONPatch(unicode_escape={ue}, uri_decode={ud}) with path {path!r} on {doc!r}: {why}", "sys.exit(2)")
     # addne / addap against add
     for d in docs:
-        for path in C5.paths_for(d):
+        extra = []
+        for parts, node in C5.PU.locations(d):
+            if isinstance(node, dict):
+                # '#name' / '~name' are ordinary member names for add / addne (the key-token
+                # extension of the pointer only concerns resolution)
+                extra += [C5.PU.spell(parts) + "/" + C5.PU.rfc_escape(pfx + k) for k in list(node)[:2] for pfx in ("#", "~") if isinstance(k, str) and k]
+        for path in C5.paths_for(d) + extra:
             for v in (1, [2]):
                 add = outcome(JSONPatch(unicode_escape=False).add(path, v), d)
                 ne = outcome(JSONPatch(unicode_escape=False).addne(path, v), d)
